@@ -161,8 +161,10 @@ func verifEqV4(a, b *dhcpv4.DHCPv4) {
 	verifEqBytes(verifV4Addr(a.ServerIPAddr), verifV4Addr(b.ServerIPAddr), "eq-v4-siaddr")
 	verifEqBytes(verifV4Addr(a.GatewayIPAddr), verifV4Addr(b.GatewayIPAddr), "eq-v4-giaddr")
 	verifEqBytes(a.ClientHWAddr, b.ClientHWAddr, "eq-v4-chaddr")
-	verifEqBytes([]byte(a.ServerHostName), []byte(b.ServerHostName), "eq-v4-sname")
-	verifEqBytes([]byte(a.BootFileName), []byte(b.BootFileName), "eq-v4-file")
+	// C06 lists "names cut to their NUL-terminated capacity" as a normalisation: the 64 / 128
+	// byte fields hold at most 63 / 127 name bytes
+	verifEqBytes(verifCut([]byte(a.ServerHostName), 63), verifCut([]byte(b.ServerHostName), 63), "eq-v4-sname")
+	verifEqBytes(verifCut([]byte(a.BootFileName), 127), verifCut([]byte(b.BootFileName), 127), "eq-v4-file")
 	verifAssert(len(a.Options) == len(b.Options), "eq-v4-options-count")
 	for code, va := range a.Options {
 		vb, has := b.Options[code]
@@ -171,6 +173,13 @@ func verifEqV4(a, b *dhcpv4.DHCPv4) {
 			verifEqBytes(va, vb, "eq-v4-option-value")
 		}
 	}
+}
+
+func verifCut(b []byte, n int) []byte {
+	if len(b) > n {
+		return b[:n]
+	}
+	return b
 }
 
 // verifV4Addr: nil == 0.0.0.0 in the BOOTP header.
@@ -475,14 +484,20 @@ func verifEqOpt(a, b Option) {
 }
 
 // verifC02Check is the common tail of the per-option harnesses.
-func verifC02Check(opt Option, code uint16, want []byte) {
+//
+// wordsAt lists the offsets of 32-bit second counts (16-bit for elapsed time: negative offset
+// -1-off) in the payload: those are compared as whole numbers, so that the solver sees one
+// equation over the time.Duration arithmetic instead of a bit-level one; all other bytes are
+// compared bytewise.
+func verifC02Check(opt Option, code uint16, want []byte, wordsAt ...int) {
 	verifAssert(uint16(opt.Code()) == code, "code")
 	b := opt.ToBytes()
-	verifAssert(verifSame(b, want), "encoding-is-rfc-layout")
+	verifSameLayout(b, want, wordsAt)
 	verifObserve("encoded", b)
 	st := refOptStatus(code, b)
-	verifAssert(st != refReject, "encoding-wellformed-for-reference")
 	if st != refAccept {
+		// a value a caller can build but that does not exist on the wire (empty class lists,
+		// empty remote-id, ...): only its encoding is checked
 		verifReach("not-on-the-wire")
 		verifReach("end")
 		return
@@ -496,6 +511,31 @@ func verifC02Check(opt Option, code uint16, want []byte) {
 	verifReach("end")
 }
 
+func verifSameLayout(b, want []byte, wordsAt []int) {
+	verifAssert(len(b) == len(want), "encoding-length")
+	if len(b) != len(want) {
+		return
+	}
+	skip := make([]bool, len(b))
+	for _, o := range wordsAt {
+		if o < 0 {
+			o = -1 - o
+			verifAssert(refBE16(b[o:]) == refBE16(want[o:]), "encoding-10ms-units")
+			skip[o], skip[o+1] = true, true
+			continue
+		}
+		verifAssert(refBE32(b[o:]) == refBE32(want[o:]), "encoding-seconds")
+		skip[o], skip[o+1], skip[o+2], skip[o+3] = true, true, true, true
+	}
+	var d byte
+	for i := range b {
+		if !skip[i] {
+			d |= b[i] ^ want[i]
+		}
+	}
+	verifAssert(d == 0, "encoding-is-rfc-layout")
+}
+
 func verifSecs(name string) (time.Duration, uint32) {
 	s := verifU32(name)
 	return time.Duration(s) * time.Second, s
@@ -507,12 +547,12 @@ func verifSecs(name string) (time.Duration, uint32) {
 func VerifC02OptElapsedTime() {
 	k := verifU16("k")
 	o := OptElapsedTime(time.Duration(k) * 10 * time.Millisecond)
-	verifC02Check(o, refElapsed, refPut16(nil, k))
+	verifC02Check(o, refElapsed, refPut16(nil, k), -1)
 }
 
 func VerifC02OptInformationRefreshTime() {
 	d, s := verifSecs("irt")
-	verifC02Check(OptInformationRefreshTime(d), refInfoRefresh, refPut32(nil, s))
+	verifC02Check(OptInformationRefreshTime(d), refInfoRefresh, refPut32(nil, s), 0)
 }
 
 func VerifC02OptRelayPort() {
@@ -571,7 +611,693 @@ func verifIAAddr(l int) (o *OptIAAddress, payload []byte) {
 // VerifC02OptIAAddress: l < 0 no nested option, else a nested status code with l message bytes.
 func VerifC02OptIAAddress(l int) {
 	o, want := verifIAAddr(l)
-	verifC02Check(o, refIAAddr, want)
+	verifC02Check(o, refIAAddr, want, 16, 20)
 }
 
-var _ = dhcpv4.OpcodeBootRequest
+// ---------------------------------------------------------------------------------------------
+// DUIDs (options 1 and 2).
+
+// verifDUID builds a DUID of the given kind (0 LLT, 1 EN, 2 LL, 3 UUID, 4 opaque with a symbolic
+// type outside 1..4) whose variable part has l bytes (ignored for UUID).
+func verifDUID(kind, l int) (DUID, refDUID) {
+	switch kind {
+	case 0:
+		hw, t, ll := verifU16("hwtype"), verifU32("time"), verifBytes("lladdr", l)
+		return &DUIDLLT{HWType: iana.HWType(hw), Time: t, LinkLayerAddr: net.HardwareAddr(ll)},
+			refDUID{typ: 1, hw: hw, time: t, body: ll}
+	case 1:
+		en, id := verifU32("enterprise"), verifBytes("identifier", l)
+		return &DUIDEN{EnterpriseNumber: en, EnterpriseIdentifier: id}, refDUID{typ: 2, en: en, body: id}
+	case 2:
+		hw, ll := verifU16("hwtype"), verifBytes("lladdr", l)
+		return &DUIDLL{HWType: iana.HWType(hw), LinkLayerAddr: net.HardwareAddr(ll)},
+			refDUID{typ: 3, hw: hw, body: ll}
+	case 3:
+		u := verifBytes("uuid", 16)
+		d := &DUIDUUID{}
+		copy(d.UUID[:], u)
+		return d, refDUID{typ: 4, body: u}
+	default:
+		t := verifU16("duidtype")
+		verifAssume(verifOr(t == 0, t > 4))
+		data := verifBytes("data", l)
+		return &DUIDOpaque{Type: DUIDType(t), Data: data}, refDUID{typ: t, body: data}
+	}
+}
+
+func VerifC02OptClientID(kind, l int) {
+	d, r := verifDUID(kind, l)
+	verifC02Check(OptClientID(d), refClientID, refEncDUID(r))
+}
+
+func VerifC02OptServerID(kind, l int) {
+	d, r := verifDUID(kind, l)
+	verifC02Check(OptServerID(d), refServerID, refEncDUID(r))
+}
+
+// ---------------------------------------------------------------------------------------------
+// Identity associations.
+
+// verifIAAddrList: k IAADDR options (each with a nested status code of l message bytes, l < 0
+// none) followed by an IA-level status code when st >= 0 (st message bytes).
+func verifIAAddrList(k, l, st int) (opts Options, enc []byte, words []int) {
+	for i := 0; i < k; i++ {
+		o, payload := verifIAAddr(l)
+		opts = append(opts, o)
+		base := len(enc) + 4
+		words = append(words, base+16, base+20)
+		enc = append(enc, refEncTLV(refIAAddr, payload)...)
+	}
+	sub, subEnc := verifStatusSub(st)
+	opts = append(opts, sub...)
+	enc = append(enc, subEnc...)
+	return opts, enc, words
+}
+
+func verifShift(words []int, by int) []int {
+	out := make([]int, 0, len(words))
+	for _, w := range words {
+		out = append(out, w+by)
+	}
+	return out
+}
+
+// VerifC02OptIANA: IA_NA with k addresses; l, st as in verifIAAddrList (nesting IA_NA > IAADDR >
+// STATUS_CODE when l >= 0).
+func VerifC02OptIANA(k, l, st int) {
+	iaid := verifBytes("iaid", 4)
+	t1, s1 := verifSecs("t1")
+	t2, s2 := verifSecs("t2")
+	opts, inner, words := verifIAAddrList(k, l, st)
+	o := &OptIANA{T1: t1, T2: t2}
+	copy(o.IaId[:], iaid)
+	o.Options.Options = opts
+	verifC02Check(o, refIANA, refEncIA(iaid, s1, s2, inner), append([]int{4, 8}, verifShift(words, 12)...)...)
+}
+
+func VerifC02OptIATA(k, l, st int) {
+	iaid := verifBytes("iaid", 4)
+	opts, inner, words := verifIAAddrList(k, l, st)
+	o := &OptIATA{}
+	copy(o.IaId[:], iaid)
+	o.Options.Options = opts
+	verifC02Check(o, refIATA, refEncIATA(iaid, inner), verifShift(words, 4)...)
+}
+
+// verifIAPrefix: prefix length is an enumerated choice lo..hi within 0..128 (the bit arithmetic
+// of the mask and the 64-bit arithmetic of the lifetimes do not mix well in one solver query).
+func verifIAPrefix(l, lo, hi int) (o *OptIAPrefix, payload []byte) {
+	plen := lo + verifChoice("plen", hi-lo+1)
+	addr := verifBytes("prefix", 16)
+	pd, ps := verifSecs("preferred")
+	vd, vs := verifSecs("valid")
+	sub, subEnc := verifStatusSub(l)
+	o = &OptIAPrefix{PreferredLifetime: pd, ValidLifetime: vd,
+		Prefix: &net.IPNet{IP: net.IP(addr), Mask: net.CIDRMask(plen, 128)}}
+	o.Options.Options = sub
+	return o, refEncIAPrefix(ps, vs, uint8(plen), addr, subEnc)
+}
+
+// VerifC02OptIAPrefix: l < 0 no nested option, else a nested status code with l message bytes;
+// every prefix length lo..hi.
+func VerifC02OptIAPrefix(l, lo, hi int) {
+	o, want := verifIAPrefix(l, lo, hi)
+	verifC02Check(o, refIAPrefix, want, 0, 4)
+}
+
+// VerifC02OptIAPrefixNil: the "no prefix" representation encodes as ::/0.
+func VerifC02OptIAPrefixNil() {
+	pd, ps := verifSecs("preferred")
+	vd, vs := verifSecs("valid")
+	o := &OptIAPrefix{PreferredLifetime: pd, ValidLifetime: vd}
+	verifC02Check(o, refIAPrefix, refEncIAPrefix(ps, vs, 0, make([]byte, 16), nil), 0, 4)
+}
+
+// VerifC02OptIAPD: IA_PD with k prefixes (nested status of l bytes each, every prefix length
+// lo..hi) and an IA-level status.
+func VerifC02OptIAPD(k, l, st, lo, hi int) {
+	iaid := verifBytes("iaid", 4)
+	t1, s1 := verifSecs("t1")
+	t2, s2 := verifSecs("t2")
+	var opts Options
+	var inner []byte
+	words := []int{4, 8}
+	for i := 0; i < k; i++ {
+		p, payload := verifIAPrefix(l, lo, hi)
+		opts = append(opts, p)
+		base := 12 + len(inner) + 4
+		words = append(words, base, base+4)
+		inner = append(inner, refEncTLV(refIAPrefix, payload)...)
+	}
+	sub, subEnc := verifStatusSub(st)
+	opts = append(opts, sub...)
+	inner = append(inner, subEnc...)
+	o := &OptIAPD{T1: t1, T2: t2}
+	copy(o.IaId[:], iaid)
+	o.Options.Options = opts
+	verifC02Check(o, refIAPD, refEncIA(iaid, s1, s2, inner), words...)
+}
+
+// ---------------------------------------------------------------------------------------------
+// Lists.
+
+// VerifC02OptRequestedOption: k pairwise distinct codes (an ORO is a set: the decoder drops
+// repetitions, which C06 lists as a normalisation).
+func VerifC02OptRequestedOption(k int) {
+	codes := make([]uint16, k)
+	var oc []OptionCode
+	for i := range codes {
+		codes[i] = verifU16("code")
+		for j := 0; j < i; j++ {
+			verifAssume(codes[i] != codes[j])
+		}
+		oc = append(oc, OptionCode(codes[i]))
+	}
+	verifC02Check(OptRequestedOption(oc...), refORO, refEncU16s(codes))
+}
+
+func VerifC02OptClientArchType(k int) {
+	vals := make([]uint16, k)
+	var as []iana.Arch
+	for i := range vals {
+		vals[i] = verifU16("arch")
+		as = append(as, iana.Arch(vals[i]))
+	}
+	verifC02Check(OptClientArchType(as...), refArchType, refEncU16s(vals))
+}
+
+func verifItems(name string, k, l int) [][]byte {
+	var items [][]byte
+	for i := 0; i < k; i++ {
+		items = append(items, verifBytes(name, l))
+	}
+	return items
+}
+
+// VerifC02OptUserClass: k classes of l bytes.
+func VerifC02OptUserClass(k, l int) {
+	items := verifItems("class", k, l)
+	verifC02Check(&OptUserClass{UserClasses: items}, refUserClass, refEncLenList(items))
+}
+
+func VerifC02OptVendorClass(k, l int) {
+	en := verifU32("enterprise")
+	items := verifItems("class", k, l)
+	verifC02Check(&OptVendorClass{EnterpriseNumber: en, Data: items}, refVendorClass,
+		refEncEnterprise(en, refEncLenList(items)))
+}
+
+func VerifC02OptBootFileParam(k, l int) {
+	items := verifItems("param", k, l)
+	var ps []string
+	for _, it := range items {
+		ps = append(ps, string(it))
+	}
+	verifC02Check(OptBootFileParam(ps...), refBootParam, refEncLenList(items))
+}
+
+func VerifC02OptBootFileURL(l int) {
+	u := verifBytes("url", l)
+	verifC02Check(OptBootFileURL(string(u)), refBootURL, u)
+}
+
+func VerifC02OptInterfaceID(l int) {
+	id := verifBytes("id", l)
+	verifC02Check(OptInterfaceID(id), refInterfaceID, id)
+}
+
+func VerifC02OptRemoteID(l int) {
+	en := verifU32("enterprise")
+	id := verifBytes("id", l)
+	verifC02Check(&OptRemoteID{EnterpriseNumber: en, RemoteID: id}, refRemoteID, refEncEnterprise(en, id))
+}
+
+func VerifC02OptClientLinkLayerAddress(l int) {
+	t := verifU16("lltype")
+	a := verifBytes("lladdr", l)
+	verifC02Check(OptClientLinkLayerAddress(iana.HWType(t), net.HardwareAddr(a)), refClientLL,
+		append(refPut16(nil, t), a...))
+}
+
+func VerifC02OptDHCP4oDHCP6Server(k int) {
+	var ips []net.IP
+	var want []byte
+	for i := 0; i < k; i++ {
+		a := verifBytes("addr", 16)
+		ips = append(ips, net.IP(a))
+		want = append(want, a...)
+	}
+	verifC02Check(&OptDHCP4oDHCP6Server{DHCP4oDHCP6Servers: ips}, ref4o6Server, want)
+}
+
+// VerifC02OptVendorOpts: k sub-options with symbolic codes and l payload bytes each.
+func VerifC02OptVendorOpts(k, l int) {
+	en := verifU32("enterprise")
+	var subs Options
+	var inner []byte
+	for i := 0; i < k; i++ {
+		c := verifU16("subcode")
+		d := verifBytes("subdata", l)
+		subs = append(subs, &OptionGeneric{OptionCode: OptionCode(c), OptionData: d})
+		inner = append(inner, refEncTLV(c, d)...)
+	}
+	verifC02Check(&OptVendorOpts{EnterpriseNumber: en, VendorOpts: subs}, refVendorOpts, refEncEnterprise(en, inner))
+}
+
+// VerifC02OptGeneric: unknown code, l payload bytes.
+func VerifC02OptGeneric(l int) {
+	c := verifU16("code")
+	verifAssume(!refIsKnown(c))
+	d := verifBytes("data", l)
+	verifC02Check(&OptionGeneric{OptionCode: OptionCode(c), OptionData: d}, c, d)
+}
+
+// ---------------------------------------------------------------------------------------------
+// Domain names.
+
+// verifNameShape: decimal digits of s are label lengths (lowest digit first), 0 is the root
+// name, s < 0 means "no name".  Label bytes are symbolic and not '.'.
+func verifNameOfShape(s int) (labels [][]byte, joined string) {
+	var j []byte
+	first := true
+	for d := s; d > 0; d /= 10 {
+		lab := verifBytes("label", d%10)
+		for _, c := range lab {
+			verifAssume(c != '.')
+		}
+		if !first {
+			j = append(j, '.')
+		}
+		first = false
+		j = append(j, lab...)
+		labels = append(labels, lab)
+	}
+	return labels, string(j)
+}
+
+func verifNamesOfShapes(shapes ...int) (all [][][]byte, joined []string) {
+	for _, s := range shapes {
+		if s < 0 {
+			continue
+		}
+		l, j := verifNameOfShape(s)
+		all = append(all, l)
+		joined = append(joined, j)
+	}
+	return
+}
+
+func VerifC02OptDomainSearchList(s1, s2, s3 int) {
+	all, joined := verifNamesOfShapes(s1, s2, s3)
+	l := rfc1035label.NewLabels()
+	l.Labels = append(l.Labels, joined...)
+	verifC02Check(OptDomainSearchList(l), refDomainList, refEncNames(all))
+}
+
+// VerifC02OptFQDN: flags symbolic, one name of shape s (s < 0: empty domain-name field).
+func VerifC02OptFQDN(s int) {
+	flags := verifU8("flags")
+	all, joined := verifNamesOfShapes(s)
+	l := rfc1035label.NewLabels()
+	l.Labels = append(l.Labels, joined...)
+	verifC02Check(&OptFQDN{Flags: flags, DomainName: l}, refFQDN, append([]byte{flags}, refEncNames(all)...))
+}
+
+// verifNTPSub: kind 0 server address, 1 multicast address, 2 server FQDN of shape s, 3 unknown
+// sub-option code with 2 bytes.
+func verifNTPSub(kind, s int) (Option, []byte) {
+	switch kind {
+	case 0:
+		a := verifBytes("ntpaddr", 16)
+		v := NTPSuboptionSrvAddr(a)
+		return &v, refEncTLV(1, a)
+	case 1:
+		a := verifBytes("ntpmc", 16)
+		v := NTPSuboptionMCAddr(a)
+		return &v, refEncTLV(2, a)
+	case 2:
+		all, joined := verifNamesOfShapes(s)
+		f := &NTPSuboptionSrvFQDN{}
+		f.Labels.Labels = joined
+		return f, refEncTLV(3, refEncNames(all))
+	default:
+		c := verifU16("ntpcode")
+		verifAssume(verifOr(c == 0, c > 3))
+		d := verifBytes("ntpdata", 2)
+		return &OptionGeneric{OptionCode: OptionCode(c), OptionData: d}, refEncTLV(c, d)
+	}
+}
+
+// VerifC02OptNTPServer: up to three sub-options of kinds k1..k3 (< 0: absent); FQDN shape s.
+func VerifC02OptNTPServer(k1, k2, k3, s int) {
+	var subs Options
+	var inner []byte
+	for _, k := range []int{k1, k2, k3} {
+		if k < 0 {
+			continue
+		}
+		o, enc := verifNTPSub(k, s)
+		subs = append(subs, o)
+		inner = append(inner, enc...)
+	}
+	verifC02Check(&OptNTPServer{Suboptions: subs}, refNTP, inner)
+}
+
+// ---------------------------------------------------------------------------------------------
+// 4rd (RFC 7600).
+
+// VerifC02Opt4RDMapRule: mode 0 sweeps prefix4-len with prefix6-len 64, mode 1 sweeps
+// prefix6-len with prefix4-len 24 (all other fields symbolic), mode 2 both enumerated.
+func VerifC02Opt4RDMapRule(mode int) {
+	ea := verifU8("ealen")
+	w := verifBool("wkp")
+	p4 := verifBytes("prefix4", 4)
+	p6 := verifBytes("prefix6", 16)
+	l4, l6 := 24, 64
+	switch mode {
+	case 0:
+		l4 = verifChoice("p4len", 33)
+	case 1:
+		l6 = verifChoice("p6len", 129)
+	default:
+		l4 = verifChoice("p4len", 33)
+		l6 = verifChoice("p6len", 129)
+	}
+	o := &Opt4RDMapRule{
+		Prefix4:       net.IPNet{IP: net.IP(p4), Mask: net.CIDRMask(l4, 32)},
+		Prefix6:       net.IPNet{IP: net.IP(p6), Mask: net.CIDRMask(l6, 128)},
+		EABitsLength:  ea,
+		WKPAuthorized: w,
+	}
+	verifC02Check(o, ref4RDMap, refEnc4RDMap(uint8(l4), uint8(l6), ea, w, p4, p6))
+}
+
+func verif4RDNonMapRule(tc int) (*Opt4RDNonMapRule, []byte) {
+	h := verifBool("hub")
+	pmtu := verifU16("pmtu")
+	o := &Opt4RDNonMapRule{HubAndSpoke: h, DomainPMTU: pmtu}
+	var tcv uint8
+	if tc != 0 {
+		tcv = verifU8("tclass")
+		v := tcv
+		o.TrafficClass = &v
+	}
+	return o, refEnc4RDNonMap(h, tc != 0, tcv, pmtu)
+}
+
+// VerifC02Opt4RDNonMapRule: tc 0 = no traffic class, 1 = traffic class present.
+func VerifC02Opt4RDNonMapRule(tc int) {
+	o, want := verif4RDNonMapRule(tc)
+	verifC02Check(o, ref4RDNonMap, want)
+}
+
+// VerifC02Opt4RD: container with `maps` map rules (prefix lengths 24/64, other fields
+// symbolic) and, if nonmap != 0, a non-map rule.
+func VerifC02Opt4RD(maps, nonmap int) {
+	var subs Options
+	var inner []byte
+	for i := 0; i < maps; i++ {
+		ea := verifU8("ealen")
+		w := verifBool("wkp")
+		p4 := verifBytes("prefix4", 4)
+		p6 := verifBytes("prefix6", 16)
+		subs = append(subs, &Opt4RDMapRule{
+			Prefix4:       net.IPNet{IP: net.IP(p4), Mask: net.CIDRMask(24, 32)},
+			Prefix6:       net.IPNet{IP: net.IP(p6), Mask: net.CIDRMask(64, 128)},
+			EABitsLength:  ea,
+			WKPAuthorized: w,
+		})
+		inner = append(inner, refEncTLV(ref4RDMap, refEnc4RDMap(24, 64, ea, w, p4, p6))...)
+	}
+	if nonmap != 0 {
+		o, enc := verif4RDNonMapRule(nonmap - 1)
+		subs = append(subs, o)
+		inner = append(inner, refEncTLV(ref4RDNonMap, enc)...)
+	}
+	o := &Opt4RD{}
+	o.Options = subs
+	verifC02Check(o, ref4RD, inner)
+}
+
+// ---------------------------------------------------------------------------------------------
+// L2 framing, L3 headers, L4 nesting.
+
+// VerifC02Framing: k options (0..4) with symbolic unknown codes and l payload bytes each:
+// Options.ToBytes is the RFC 8415 §21.1 layout and FromBytes preserves order, codes, payloads.
+func VerifC02Framing(k, l int) {
+	var opts Options
+	var want []byte
+	codes := make([]uint16, k)
+	vals := make([][]byte, k)
+	for i := 0; i < k; i++ {
+		codes[i] = verifU16("code")
+		verifAssume(!refIsKnown(codes[i]))
+		vals[i] = verifBytes("val", l)
+		opts = append(opts, &OptionGeneric{OptionCode: OptionCode(codes[i]), OptionData: vals[i]})
+		want = append(want, refEncTLV(codes[i], vals[i])...)
+	}
+	b := opts.ToBytes()
+	verifAssert(verifSame(b, want), "encoding-is-rfc-layout")
+	verifObserve("encoded", b)
+	var back Options
+	err := back.FromBytes(b)
+	verifAssert(err == nil, "decode-ok")
+	if err != nil {
+		return
+	}
+	verifAssert(len(back) == k, "same-number-of-options")
+	if len(back) == k {
+		for i := 0; i < k; i++ {
+			verifAssert(uint16(back[i].Code()) == codes[i], "code-in-order")
+			g, ok := back[i].(*OptionGeneric)
+			verifAssert(ok, "unknown-code-kept-generic")
+			if ok {
+				verifAssert(verifSame(g.OptionData, vals[i]), "payload")
+			}
+		}
+	}
+	verifEqOpts(opts, back)
+	verifReach("end")
+}
+
+// verifPlainMessage: a message with a symbolic type outside {12,13}, symbolic transaction id
+// and one unknown option of 2 bytes.
+func verifPlainMessage() (*Message, []byte) {
+	t := verifU8("msgtype")
+	verifAssume(verifAnd(t != 12, t != 13))
+	xid := verifBytes("xid", 3)
+	c := verifU16("code")
+	verifAssume(!refIsKnown(c))
+	d := verifBytes("val", 2)
+	m := &Message{MessageType: MessageType(t)}
+	copy(m.TransactionID[:], xid)
+	m.Options.Options = Options{&OptionGeneric{OptionCode: OptionCode(c), OptionData: d}}
+	return m, append(refEncMsgHeader(t, xid), refEncTLV(c, d)...)
+}
+
+// verifRelay wraps inner (already encoded as innerEnc) into a relay message with a symbolic
+// type in {12,13}, hop count and addresses, an interface-id option before the relay-message
+// option when withIfID.
+func verifRelay(inner DHCPv6, innerEnc []byte, withIfID bool) (*RelayMessage, []byte) {
+	t := verifU8("relaytype")
+	verifAssume(verifOr(t == 12, t == 13))
+	hops := verifU8("hops")
+	link := verifBytes("link", 16)
+	peer := verifBytes("peer", 16)
+	r := &RelayMessage{MessageType: MessageType(t), HopCount: hops, LinkAddr: net.IP(link), PeerAddr: net.IP(peer)}
+	enc := refEncRelayHeader(t, hops, link, peer)
+	if withIfID {
+		id := verifBytes("ifid", 2)
+		r.Options.Options = append(r.Options.Options, OptInterfaceID(id))
+		enc = append(enc, refEncTLV(refInterfaceID, id)...)
+	}
+	if inner != nil {
+		r.Options.Options = append(r.Options.Options, OptRelayMessage(inner))
+		enc = append(enc, refEncTLV(refRelayMsg, innerEnc)...)
+	}
+	return r, enc
+}
+
+func verifC02CheckMsg(m DHCPv6, want []byte) {
+	b := m.ToBytes()
+	verifAssert(verifSame(b, want), "encoding-is-rfc-layout")
+	verifObserve("encoded", b)
+	verifAssert(refMsgStatus(b) == refAccept, "encoding-wellformed-for-reference")
+	back, err := FromBytes(b)
+	verifAssert(err == nil, "decode-ok")
+	if err != nil {
+		return
+	}
+	verifEqMsg(m, back)
+	verifReach("end")
+}
+
+// VerifC02Headers: kind 0 = message header (no options), 1 = message with one option,
+// 2 = relay header without options, 3 = relay with an interface-id option.
+func VerifC02Headers(kind int) {
+	switch kind {
+	case 0:
+		t := verifU8("msgtype")
+		verifAssume(verifAnd(t != 12, t != 13))
+		xid := verifBytes("xid", 3)
+		m := &Message{MessageType: MessageType(t)}
+		copy(m.TransactionID[:], xid)
+		verifC02CheckMsg(m, refEncMsgHeader(t, xid))
+	case 1:
+		m, enc := verifPlainMessage()
+		verifC02CheckMsg(m, enc)
+	case 2:
+		r, enc := verifRelay(nil, nil, false)
+		verifC02CheckMsg(r, enc)
+	default:
+		r, enc := verifRelay(nil, nil, true)
+		verifC02CheckMsg(r, enc)
+	}
+}
+
+// VerifC02RelayChain: a message wrapped in `depth` relay messages (0..3), each level built
+// through OptRelayMessage; ifid != 0 adds an interface-id option at every level.
+func VerifC02RelayChain(depth, ifid int) {
+	var cur DHCPv6
+	m, enc := verifPlainMessage()
+	cur = m
+	for i := 0; i < depth; i++ {
+		r, e := verifRelay(cur, enc, ifid != 0)
+		cur, enc = r, e
+	}
+	verifC02CheckMsg(cur, enc)
+}
+
+// VerifC02OptRelayMsg: the relay-message option on its own (ParseOption path), carrying a chain
+// of the given depth.
+func VerifC02OptRelayMsg(depth int) {
+	var cur DHCPv6
+	m, enc := verifPlainMessage()
+	cur = m
+	for i := 0; i < depth; i++ {
+		r, e := verifRelay(cur, enc, false)
+		cur, enc = r, e
+	}
+	verifC02Check(OptRelayMessage(cur), refRelayMsg, enc)
+}
+
+// VerifC02OptDHCPv4Msg: a small DHCPv4 packet: symbolic header scalars and addresses, hardware
+// address of hl bytes, names of sl / fl non-NUL bytes, and (if ol >= 0) one option with a
+// symbolic code 1..254 and ol value bytes.  The expected bytes are RFC 2131's fixed layout,
+// the options and End, padded with zeros to the 300-byte BOOTP minimum.
+func VerifC02OptDHCPv4Msg(hl, sl, fl, ol int) {
+	hdr := verifBytes("v4hdr", 28)
+	hw := verifBytes("v4chaddr", hl)
+	sn := verifBytes("v4sname", sl)
+	for i := range sn {
+		verifAssume(sn[i] != 0)
+	}
+	fn := verifBytes("v4file", fl)
+	for i := range fn {
+		verifAssume(fn[i] != 0)
+	}
+	p := &dhcpv4.DHCPv4{
+		OpCode:         dhcpv4.OpcodeType(hdr[0]),
+		HWType:         iana.HWType(hdr[1]),
+		HopCount:       hdr[3],
+		NumSeconds:     refBE16(hdr[8:]),
+		Flags:          refBE16(hdr[10:]),
+		ClientIPAddr:   net.IP(hdr[12:16]),
+		YourIPAddr:     net.IP(hdr[16:20]),
+		ServerIPAddr:   net.IP(hdr[20:24]),
+		GatewayIPAddr:  net.IP(hdr[24:28]),
+		ClientHWAddr:   net.HardwareAddr(hw),
+		ServerHostName: string(sn),
+		BootFileName:   string(fn),
+		Options:        dhcpv4.Options{},
+	}
+	copy(p.TransactionID[:], hdr[4:8])
+	want := make([]byte, 240)
+	copy(want, hdr)
+	want[2] = byte(hl)
+	copy(want[28:], hw)
+	copy(want[44:], sn)
+	copy(want[108:], fn)
+	want[236], want[237], want[238], want[239] = 99, 130, 83, 99
+	if ol >= 0 {
+		c := verifU8("v4code")
+		verifAssume(verifAnd(c >= 1, c <= 254))
+		v := verifBytes("v4val", ol)
+		p.Options[c] = v
+		want = append(want, c, byte(ol))
+		want = append(want, v...)
+	}
+	want = append(want, 255)
+	for len(want) < 300 {
+		want = append(want, 0)
+	}
+	verifC02Check(&OptDHCPv4Msg{Msg: p}, refV4Msg, want)
+}
+
+// VerifC02Nested: one message holding the nesting cases end to end:
+//
+//	IA_NA > IAADDR > STATUS_CODE, IA_PD > IAPREFIX (/56), VENDOR_OPTS > 2 sub-options,
+//	NTP > {server address, multicast address, FQDN}, wrapped in `depth` relay messages.
+func VerifC02Nested(depth int) {
+	t := verifU8("msgtype")
+	verifAssume(verifAnd(t != 12, t != 13))
+	xid := verifBytes("xid", 3)
+	m := &Message{MessageType: MessageType(t)}
+	copy(m.TransactionID[:], xid)
+	enc := refEncMsgHeader(t, xid)
+
+	// IA_NA > IAADDR > STATUS_CODE
+	iaid := verifBytes("iaid", 4)
+	addr, addrEnc := verifIAAddr(2)
+	na := &OptIANA{T1: 5 * time.Second, T2: 8 * time.Second}
+	copy(na.IaId[:], iaid)
+	na.Options.Options = Options{addr}
+	m.Options.Options = append(m.Options.Options, na)
+	enc = append(enc, refEncTLV(refIANA, refEncIA(iaid, 5, 8, refEncTLV(refIAAddr, addrEnc)))...)
+
+	// IA_PD > IAPREFIX
+	pfxAddr := verifBytes("prefix", 16)
+	pfx := &OptIAPrefix{PreferredLifetime: 100 * time.Second, ValidLifetime: 200 * time.Second,
+		Prefix: &net.IPNet{IP: net.IP(pfxAddr), Mask: net.CIDRMask(56, 128)}}
+	pd := &OptIAPD{T1: 50 * time.Second, T2: 80 * time.Second}
+	copy(pd.IaId[:], iaid)
+	pd.Options.Options = Options{pfx}
+	m.Options.Options = append(m.Options.Options, pd)
+	enc = append(enc, refEncTLV(refIAPD, refEncIA(iaid, 50, 80,
+		refEncTLV(refIAPrefix, refEncIAPrefix(100, 200, 56, pfxAddr, nil))))...)
+
+	// VENDOR_OPTS
+	en := verifU32("enterprise")
+	c1, c2 := verifU16("subcode"), verifU16("subcode")
+	d1, d2 := verifBytes("subdata", 1), verifBytes("subdata", 3)
+	vo := &OptVendorOpts{EnterpriseNumber: en, VendorOpts: Options{
+		&OptionGeneric{OptionCode: OptionCode(c1), OptionData: d1},
+		&OptionGeneric{OptionCode: OptionCode(c2), OptionData: d2}}}
+	m.Options.Options = append(m.Options.Options, vo)
+	enc = append(enc, refEncTLV(refVendorOpts, refEncEnterprise(en, append(refEncTLV(c1, d1), refEncTLV(c2, d2)...)))...)
+
+	// NTP
+	s1, e1 := verifNTPSub(0, 0)
+	s2, e2 := verifNTPSub(1, 0)
+	s3, e3 := verifNTPSub(2, 23)
+	m.Options.Options = append(m.Options.Options, &OptNTPServer{Suboptions: Options{s1, s2, s3}})
+	enc = append(enc, refEncTLV(refNTP, refCat(e1, e2, e3))...)
+
+	var cur DHCPv6 = m
+	for i := 0; i < depth; i++ {
+		r, e := verifRelay(cur, enc, true)
+		cur, enc = r, e
+	}
+	// the lifetimes inside IAADDR are symbolic: compare the bytes with the word-wise layout check
+	b := cur.ToBytes()
+	off := depth*(34+6+4) + 4 + 4 + 12 + 4 // relay headers + interface-id + relay-msg TLV headers; msg header; IA_NA TLV+header; IAADDR TLV
+	verifSameLayout(b, enc, []int{off + 16, off + 20})
+	verifAssert(refMsgStatus(b) == refAccept, "encoding-wellformed-for-reference")
+	back, err := FromBytes(b)
+	verifAssert(err == nil, "decode-ok")
+	if err != nil {
+		return
+	}
+	verifEqMsg(cur, back)
+	verifReach("end")
+}
